@@ -20,14 +20,14 @@ claim("C02",
       "TLC decides on the model that the two-phase water-filling with largest-remainder split satisfies bounds / sum-fits / work-conservation / weight-proportional fairness / exactness for every input of a bounded domain; "
       "the same predicates are then evaluated by TLC on the runtime quotas the real code produced for enumerated and random sibling sets (order independence across insertion orders) and, on multi-level trees driven through "
       "GroupQuotaManager histories, for every level of every RefreshRuntime call with the level's TRUE inputs (max-limited from-scratch request, min, weight, lend flag) taken from the abstract objects.",
-      "Trusted: TLC, in-package reads of quotaNode / calculator fields. 32-bit TLC integers: magnitudes keep weight*total < 2^31 (64-bit-scale memory values are not covered). Min-scale (float) mode off. Guarantee feature gate off.",
+      "Trusted: TLC, in-package reads of quotaNode / calculator fields. 32-bit TLC integers: magnitudes keep weight*total < 2^31 (64-bit-scale memory values are not covered). Min-quota scaling on in half of the tree segments: the scaled min in force is taken from the calculator and only required to lie within 0..declared min. Guarantee feature gate off.",
       "DESIGN.md 5 C02")
 claim("C03",
       "TLA+ specs QuotaAdmission (closed-loop design model, TLC exhaustive MC of NeverAboveMax) + QuotaAdmissionTrace (extends the C01/C02 trace specs): every PreFilter verdict of closed-loop histories through the real Plugin validated by TLC against the admission predicate on the from-scratch abstract state and the limits in force (trace validation)",
       "TLC checks on the closed-loop model that, whatever limit <= max is in force at each attempt, a group whose max is not lowered never shows used above max under all interleavings of pod creation, admission, roll-back, deletion and max changes "
       "(with and without parent checking). Histories through the real plugin (all four runtime x check-parent combinations) are validated event by event: verdict = Success iff used+request <= limit in every dimension for the group, "
       "every ancestor when parent checking is on, and non-preemptible usage <= min; the limit the plugin compared against is the right one (max, or the runtime quota which must itself satisfy C02's predicates at every level); NeverAboveMax as a state invariant.",
-      "Trusted: TLC, the package's newPluginTestSuit fixture, in-package reads of PostFilterState and calculator fields. Min-quota scaling switched off; hook plugins none; single default tree.",
+      "Trusted: TLC, the package's newPluginTestSuit fixture, in-package reads of PostFilterState and calculator fields. Min-quota scaling on in half of the segments (scaled mins in force taken from the logged calculator levels, bounded by the declared mins); hook plugins none; single default tree.",
       "DESIGN.md 5 C03")
 claim("C04",
       "TLA+ spec Gang (ground-truth membership/hold state, property predicates ReleaseOK / MustReject / Partition, transcribed Permit and reject rules): TLC exhaustive MC of the design over all interleavings of informer, permit, roll-back, failure and bind steps; real PodGroupManager histories (online random driver playing the framework's waiting-pod table) validated event by event by TLC (trace validation)",
